@@ -38,7 +38,7 @@ def main(rep, tier, only):
     rep.rule("SNAP-1", "every field written by get_char (and the stream offset) is captured by get_position and restored by set_position", floor=6)
     rep.rule("EOF-1", "eof cleared before tellg / seekg; tellg, seekg and bad() failures become detail::exception<Ch>", floor=6)
     rep.rule("ERRLOC", "character-level parsers evaluate get_position for their error after the get_char of the offending character", floor=4)
-    rep.rule("GET-1", "fcppt::io::get returns nothing when the read hit end of input or failed", floor=1)
+    rep.rule("GET-1", "fcppt::io::get reads once and returns nothing exactly when get() returned Traits::eof() (end of input or failed stream), the read character otherwise", floor=1)
     seen = set()
     for fn in db.fns(STREAM + "::get_char"):
         ch = (fn.get("rec_targs") or ["?"])[0]
@@ -272,17 +272,52 @@ def main(rep, tier, only):
         for p in ps:
             v = sx.show(p.outcome[1]) if p.outcome[0] == "return" else p.outcome[0]
             names = ev_names(p)
-            dec = {sx.show(a): b for a, b in p.decisions}
-            if ":some" in v:
+            gets = [i for i, e in enumerate(p.events, 1) if e[0].split("<")[0] == "std::basic_istream::get"]
+            eofs = [i for i, e in enumerate(p.events, 1) if e[0].split("<")[0] == "std::char_traits::eof"]
+            # istream::get() returns Traits::eof() exactly when no character was extracted (end of input OR a failed /
+            # bad stream); the stream's eof() flag is not equivalent (failbit without eofbit)
+            sentinel = None
+            for a, b in p.decisions:
+                t = a
+                neg = False
+                while isinstance(t, tuple) and t and t[0] == "not":
+                    t, neg = t[1], not neg
+                if isinstance(t, tuple) and t and t[0] == "cmp" and t[1] in ("==", "!=") and gets and eofs:
+                    sides = {t[2], t[3]}
+                    if any(isinstance(x, tuple) and x[0] == "ev" and x[1] == gets[0] for x in sides) and \
+                       any(isinstance(x, tuple) and x[0] == "ev" and x[1] in eofs for x in sides):
+                        sentinel = (b != neg) if t[1] == "==" else (b == neg)
+            if sentinel is None and gets:
+                # equivalent by the standard: get() sets failbit exactly when it extracted no character
+                for a, b in p.decisions:
+                    t, neg = a, False
+                    while isinstance(t, tuple) and t and t[0] == "not":
+                        t, neg = t[1], not neg
+                    if isinstance(t, tuple) and t and t[0] == "ev" and t[1] > gets[0]:
+                        nm = p.events[t[1] - 1][0].split("<")[0]
+                        if nm in ("std::basic_ios::fail", "std::basic_ios::operator!"):
+                            sentinel = (b != neg)
+                        elif nm in ("std::basic_ios::operator bool", "std::basic_ios::good"):
+                            sentinel = not (b != neg)
+            if len(gets) != 1:
+                bad = "the stream is not read exactly once"
+            elif sentinel is None:
+                bad = ("'no character' is not decided by comparing the value returned by get() with Traits::eof() (decisions: %s): a failed "
+                       "stream without eofbit would yield Traits::eof() converted to a character" % [sx.show(a) for a, b in p.decisions])
+            elif ":some" in v:
                 some += 1
-                if any(b for a, b in dec.items() if ("eof" in a or "fail" in a)):
-                    bad = "a character is returned although the read hit eof / failed"
+                if sentinel:
+                    bad = "a character is returned although get() returned Traits::eof()"
+                elif "to_char_type(#%d:get)" % gets[0] not in v and not any(e[0].startswith("std::char_traits::to_char_type") for e in p.events):
+                    bad = "the returned character is not the one that was read"
             else:
                 none += 1
+                if not sentinel:
+                    bad = "nothing is returned although a character was read"
         if not bad and (not some or not none):
             bad = "io::get does not distinguish 'character read' from 'no character'"
         key = "io::get<%s>" % ",".join(fn.get("targs") or [])
-        (rep.fail if bad else rep.ok)("GET-1", key, F.primary_site(fn), F.describe(fn), **({"why": bad, "detail": {"paths": [p.show() for p in ps]}} if bad else {"how": "eof=>nothing"}))
+        (rep.fail if bad else rep.ok)("GET-1", key, F.primary_site(fn), F.describe(fn), **({"why": bad, "detail": {"paths": [p.show() for p in ps]}} if bad else {"how": "get()==Traits::eof() <=> nothing"}))
         break
     rep.explanation = ("Decision tables of the stream's character read and position save/restore, derived by abstract interpretation "
                        "of detail::stream's members (std::istream calls opaque), plus snapshot completeness over the record's fields. "
